@@ -12,7 +12,7 @@
    logdist computes it), none with s's id;  and count t = number of entries. *)
 From Coq Require Import List ZArith NArith.
 From Verif Require Import Outcome.
-From C34 Require Import Model Proofs.
+From C34 Require Import Model Proofs Logdist.
 Import ListNotations.
 
 (* The property: after ANY sequence of operations (any length, any nodes, any
@@ -64,3 +64,12 @@ Theorem c34_logdist_in_range :
   forall a b, wf_hash a -> wf_hash b -> exists d, logdist a b = Ok d /\ d < n_buckets.
 Proof. exact logdist_ok. Qed.
 Print Assumptions c34_logdist_in_range.
+
+(* What "the bucket's distance" is: logdist (byte loop + lzcount table of
+   node.go) is the bit length of the xor of the two hashes read as big-endian
+   numbers - the Kademlia log-distance; [be] is the big-endian value. *)
+Theorem c34_logdist_is_bit_length :
+  forall a b, length a = length b -> Forall isbyte a -> Forall isbyte b ->
+    logdist a b = Ok (N.to_nat (N.size (N.lxor (be a) (be b)))).
+Proof. exact logdist_is_bit_length. Qed.
+Print Assumptions c34_logdist_is_bit_length.
